@@ -27,7 +27,7 @@ def gen_scenarios(prop, tier, seed):
     per_cell = 3 if tier == "quick" else 16
     threads = (2, 3) if prop == "C08" else (1, 2, 3)
     scs += G.matrix_scenarios(rnd, per_cell=per_cell, threads_choices=threads)
-    n_extra = 400 if tier == "quick" else 8000
+    n_extra = 400 if tier == "quick" else 20000
     for j in range(n_extra):
         sc = G.base(rnd, f"x{j}")
         if prop == "C08":
@@ -52,7 +52,7 @@ def gen_scenarios(prop, tier, seed):
         sc["input_counters"] = []
         sc["alloc_script"] = {"call": [{"op": "alloc", "size": 8}]} if prop != "C01" else {}
         sc["schedule"] = {"source": "dfs", "bound": 1 if tier == "quick" else 2,
-                          "max_runs": 800 if tier == "quick" else 20000}
+                          "max_runs": 800 if tier == "quick" else 60000}
         scs.append(sc)
     return scs
 
